@@ -14,8 +14,11 @@ NUM = {"int": ("int", "i", "integer(C_INT)"), "long": ("long", "l", "integer(C_L
 class P:
     """one parameter"""
 
-    def __init__(self, shape, typ, name, value):
+    def __init__(self, shape, typ, name, value, variant=0):
         self.shape, self.typ, self.name, self.value = shape, typ, name, value
+        # spelling variants of an in/out pointer or reference that mean the same: bit 0: the pointer itself is const
+        # ("T * const a"), bit 1: the documented default intent (inout for a non-const pointer / reference) is left implicit
+        self.variant = variant
 
 
 def lit(typ, v, lang):
@@ -54,6 +57,8 @@ def gen_params(rng, allow):
             typ = rng.choice(["int", "long", "double", "float"] + (["size_t"] if shape == "val" else []))
             if shape == "val" and rng.random() < 0.25:
                 typ = rng.choice(["bool", "Color"])
+            elif shape != "val" and rng.random() < 0.2:
+                typ = "bool"          # logical <-> bool through a pointer / reference: converted on the way in AND on the way out
             if typ == "bool":
                 v = rng.random() < 0.5
             elif typ == "Color":
@@ -64,9 +69,10 @@ def gen_params(rng, allow):
                 v = rng.choice([0, 1, 7, 4096])
             else:
                 v = rng.choice([0, 1, -1, 7, 2147483647, -2147483648] if typ == "int" else [0, 1, -1, 9, 2147483648, -2147483649])
-            ps.append(P(shape, typ, name, v))
+            ps.append(P(shape, typ, name, v, variant=(rng.choice([0, 0, 1, 2, 3]) if shape in ("ptr_inout", "ptr_out", "ref_inout") else 0)))
         elif shape in ("str_cref", "cstr_in", "str_inout"):
-            ps.append(P(shape, "string", name, rng.choice(["", "a", "hello", "two words", "trailing  ", "  lead", "x" * 15])))
+            ps.append(P(shape, "string", name, rng.choice(["", "a", "hello", "two words", "trailing  ", "  lead", "x" * 15]),
+                        variant=(rng.choice([0, 0, 2, 4, 5, 6, 7]) if shape == "str_inout" else 0)))
         elif shape == "str_out":
             ps.append(P(shape, "string", name, ""))
         elif shape == "arr_in":
@@ -86,6 +92,10 @@ class F:
 
 def cxx_param(p):
     t = p.typ
+    if p.shape in ("ptr_inout", "ptr_out") and getattr(p, "variant", 0) & 1:
+        return "%s * const %s" % (t, p.name)
+    if p.shape == "str_inout" and getattr(p, "variant", 0) & 4:
+        return "std::string *%s%s_p" % (" const " if getattr(p, "variant", 0) & 1 else "", p.name)
     return {"val": "%s %s" % (t, p.name), "ptr_in": "const %s *%s" % (t, p.name), "ptr_out": "%s *%s" % (t, p.name), "ptr_inout": "%s *%s" % (t, p.name),
             "ref_inout": "%s &%s" % (t, p.name), "ref_out": "%s &%s" % (t, p.name), "str_cref": "const std::string &%s" % p.name,
             "cstr_in": "const char *%s" % p.name, "str_inout": "std::string &%s" % p.name, "str_out": "std::string &%s" % p.name,
@@ -94,6 +104,14 @@ def cxx_param(p):
 
 def yaml_param(p):
     t = p.typ
+    v = getattr(p, "variant", 0)
+    if p.shape in ("ptr_inout", "ptr_out") and v:
+        intent = "" if (p.shape == "ptr_inout" and v & 2) else " +intent(%s)" % p.shape[4:]
+        return "%s *%s %s%s" % (t, " const" if v & 1 else "", p.name, intent)
+    if p.shape == "str_inout" and v & 4:
+        return "std::string *%s%s_p%s" % (" const " if v & 1 else "", p.name, "" if v & 2 else " +intent(inout)")
+    if p.shape in ("ref_inout", "str_inout") and v & 2:
+        return "%s &%s" % ("std::string" if p.shape == "str_inout" else t, p.name)
     return {"val": "%s %s" % (t, p.name), "ptr_in": "const %s *%s" % (t, p.name), "ptr_out": "%s *%s +intent(out)" % (t, p.name),
             "ptr_inout": "%s *%s +intent(inout)" % (t, p.name), "ref_inout": "%s &%s +intent(inout)" % (t, p.name),
             "ref_out": "%s &%s +intent(out)" % (t, p.name), "str_cref": "const std::string &%s" % p.name, "cstr_in": "const char *%s" % p.name,
@@ -112,6 +130,9 @@ def result_cxx(r):
 def callee_body(f, label):
     """C++ body: print what was received, define outputs deterministically"""
     b = ["  std::cout << \"callee %s(\";" % label, "  long acc = %d;" % (len(f.name) % 5)]
+    for p in f.params:
+        if p.shape == "str_inout" and getattr(p, "variant", 0) & 4:
+            b.insert(0, "  std::string &%s = *%s_p;" % (p.name, p.name))
     for p in f.params:
         n = p.name
         if p.shape == "val":
@@ -137,7 +158,10 @@ def callee_body(f, label):
     b.append("  std::cout << \")\\n\";")
     for k, p in enumerate(f.params):
         n = p.name
-        if p.shape == "ptr_out":
+        if p.typ == "bool" and p.shape in ("ptr_out", "ptr_inout", "ref_out", "ref_inout"):
+            tgt = ("*" + n) if p.shape.startswith("ptr") else n
+            b.append("  %s = %s;" % (tgt, ("(acc % 2) == 0" if p.shape.endswith("_out") else "!" + tgt)))
+        elif p.shape == "ptr_out":
             b.append("  *%s = (%s)(acc %% 97 + %d);" % (n, p.typ, k))
         elif p.shape == "ref_out":
             b.append("  %s = (%s)(acc %% 89 + %d);" % (n, p.typ, k))
@@ -306,7 +330,7 @@ def direct_driver(lib):
                 args.append(cstr(p.value))
             elif p.shape in ("str_inout", "str_out"):
                 b.append("    std::string %s(%s);" % (n, cstr(p.value)))
-                args.append(n)
+                args.append(("&" + n) if (p.shape == "str_inout" and getattr(p, "variant", 0) & 4) else n)
                 post.append("eq_str(%s.data(), (int)%s.size());" % (n, n))
             elif p.shape == "arr_in":
                 vals = ", ".join(lit(p.typ, v, "c") for v in p.value) or "0"
@@ -370,9 +394,10 @@ def c_driver(lib, protos):
                 vals["L" + n] = "%d" % len(p.value)
             elif p.shape in ("str_inout", "str_out"):
                 b.append("    char %s[64]; std::memset(%s, ' ', 64); std::strcpy(%s, %s);" % (n, n, n, cstr(p.value)))
-                vals[n] = n
-                vals["L" + n] = "%d" % len(p.value)
-                vals["N" + n] = "40"
+                dn = n + ("_p" if (p.shape == "str_inout" and getattr(p, "variant", 0) & 4) else "")      # the declared parameter name
+                vals[dn] = n
+                vals["L" + dn] = "%d" % len(p.value)
+                vals["N" + dn] = "40"
                 post.append("@STR@" + n)
             elif p.shape == "arr_in":
                 v = ", ".join(lit(p.typ, x, "c") for x in p.value) or "0"
@@ -577,7 +602,7 @@ def trimmed_copy(lib):
         ps = []
         for p in f.params:
             if p.shape in ("str_cref", "cstr_in", "str_inout"):
-                ps.append(P(p.shape, p.typ, p.name, p.value.rstrip(" ")))
+                ps.append(P(p.shape, p.typ, p.name, p.value.rstrip(" "), getattr(p, "variant", 0)))
             else:
                 ps.append(p)
         l2["funcs"].append(F(f.name, ps, f.result, f.kind, f.rvalue))
